@@ -180,7 +180,9 @@ def xcopy_bad(draw, spc5):
         valid_keys = {"descriptor_type_code", "peripheral_device_type", "lu_id_type",
                       "relative_initiator_port_identifier", pkey, "device_type_specific_parameters"}
         if kind == "target_key":
-            k = draw(BAD_KEYS.filter(lambda x: x not in valid_keys))
+            elsewhere = sorted((SEG_KEYS(True, 0x02) | SEG_KEYS(False, 0x00) | {"code_set", "association", "designator_type",
+                                                                                "pad", "fixed", "disk_block_length"}) - valid_keys)
+            k = draw(st.one_of(BAD_KEYS.filter(lambda x: x not in valid_keys), st.sampled_from(elsewhere)))
             d[k] = draw(st.integers(0, 3))
         elif kind == "target_type":
             d["descriptor_type_code"] = draw(st.one_of(
@@ -202,7 +204,12 @@ def xcopy_bad(draw, spc5):
         d = draw(paramgen.segment(spc5))
         if kind == "segment_key":
             code = d["_code"]
-            k = draw(BAD_KEYS.filter(lambda x: x not in SEG_KEYS(spc5, code)))
+            # a name nothing knows, or a name that is valid elsewhere (the other segment layout, the other
+            # SPC flavour, a target descriptor) but not in a descriptor of this type
+            elsewhere = sorted((SEG_KEYS(True, 0x02) | SEG_KEYS(True, 0x00) | SEG_KEYS(False, 0x02) | SEG_KEYS(False, 0x00)
+                                | {"peripheral_device_type", "lu_id_type", "relative_initiator_port_identifier"})
+                               - SEG_KEYS(spc5, code))
+            k = draw(st.one_of(BAD_KEYS.filter(lambda x: x not in SEG_KEYS(spc5, code)), st.sampled_from(elsewhere)))
             d[k] = draw(st.integers(0, 3))
         else:
             d["descriptor_type_code"] = draw(st.one_of(
